@@ -187,6 +187,12 @@ def _more(name):
     return run
 
 
+def r11_resolution_completes_whatever_is_cached(ctx):
+    from . import resolveexec
+
+    resolveexec.law_prefilled(ctx)
+
+
 RULES = [
     ("C19.R6", "P1", r6, "bookkeeping read by concurrent lookups is written before the entry that makes them possible"),
     ("C19.R5", "P1", r5_per_call_state_is_local, "the generated entry point keeps its per-call state in locals"),
